@@ -512,11 +512,11 @@ func (self Node) Field(id thrift.FieldID) (v Node) {
 	}
 	for it.HasNext() {
 		i, t, s, e := it.Next(UseNativeSkipForGet)
-		if i == id {
-			v = self.slice(s, e, t)
-			goto ret
-		} else if it.Err != nil {
+		if it.Err != nil {
 			v = errNode(meta.ErrRead, "", it.Err)
+			goto ret
+		} else if i == id {
+			v = self.slice(s, e, t)
 			goto ret
 		}
 	}
@@ -550,6 +550,9 @@ func (self Node) Index(i int) (v Node) {
 	}
 
 	s, e = it.Next(UseNativeSkipForGet)
+	if it.Err != nil {
+		return errNode(meta.ErrRead, "", it.Err)
+	}
 	v = self.slice(s, e, self.et)
 ret:
 	// it.Recycle()
